@@ -12,7 +12,7 @@
      action:= - | { <text>
      entry := g <path> <text> | q <path> b|s|d | t <path> <text> | f <path> 0|1
      <name>/<value>/<text> := x<hex of the UTF-8 bytes>   (x alone = empty)
-     <path> := decimal indices joined by '.'   (the path scheme of YpPrint.v)
+     <path> := decimal indices joined by '.', the empty path is '-'   (the path scheme of YpPrint.v)
    layout defaults for paths without an entry: gap "", style bare, txt "", flag false.
 
    result line:  x<hex of (print lay ag), UTF-8> # <transcript of (ast_of fa lay ag), no errors,
@@ -171,7 +171,8 @@ let n_of_hex (s : string) : n =
   | [] -> N0
   | _ :: rest -> Npos (List.fold_left (fun p b -> if b then XI p else XO p) XH rest)
 
-let path_of (s : string) : int list = List.map int_of_string (String.split_on_char '.' s)
+let path_of (s : string) : int list =
+  if s = "-" then [] else List.map int_of_string (String.split_on_char '.' s)
 
 let decode (toks : string list) : bool * agram * layout =
   let cur = ref toks in
